@@ -6,6 +6,7 @@ from platform import python_version_tuple
 PY2 = python_version_tuple()[0] == "2"
 
 import re
+import codecs
 from functools import partial
 
 from ural.utils import quote
@@ -19,6 +20,14 @@ else:
     HEX_TO_BYTE = {(a + b).encode(): bytes.fromhex(a + b) for a in HEX for b in HEX}
 
 ASCII_RE = re.compile("([\x00-\x7f]+)")
+
+
+def _keep_undecodable_bytes_quoted(error):
+    undecodable = bytearray(error.object[error.start : error.end])
+    return ("".join("%%%02X" % byte for byte in undecodable), error.end)
+
+
+codecs.register_error("ural.keepquoted", _keep_undecodable_bytes_quoted)
 
 
 def _unquote_impl(string, only_printable=False, unsafe=None):
@@ -58,7 +67,7 @@ def _generate_unquoted_parts(string, only_printable=False, unsafe=None):
 
         m = ascii_match.group(1)
         c = _unquote_impl(m, only_printable=only_printable, unsafe=unsafe).decode(
-            "utf-8", "replace"
+            "utf-8", "ural.keepquoted"
         )
 
         yield c
